@@ -80,6 +80,10 @@ class Scheduler:
         self.lock_contentions = 0
         self.line_log: list | None = None
         self.line_filter = None
+        self.p_stall = 0.0
+        self.abandoned_funcs: set[str] = set()
+        self.stall_ns: list[int] = []
+        self.stalls = 0
         self.abandoned_yields = 0
         self.quantum = 5
         clock.sleeper = self.sleep
@@ -110,6 +114,8 @@ class Scheduler:
 
     def _local_sut(self, frame, event, arg):
         if event == "line":
+            if self.current.abandoned:
+                self.abandoned_funcs.add(frame.f_code.co_name)
             if self.line_log is not None and (self.line_filter is None or self.line_filter()):
                 self.line_log.append((frame.f_code.co_filename, frame.f_lineno))
             self.yield_point("sut")
@@ -185,7 +191,7 @@ class Scheduler:
             return
         cost = self.sut_cost if kind == "sut" else self.pyn_cost
         self.clock.advance(cost)
-        if me is not self.main and (self.main.state == "runnable" or self.main.wait_lock is not None):
+        if me is not self.main and self.main.state == "runnable":
             self.main_preempted_ns += cost
         if me.abandoned:
             self.abandoned_yields += 1
@@ -196,6 +202,18 @@ class Scheduler:
             if self.watch_deadline is not None and self.clock.ns > self.watch_deadline:
                 self._overrun(me, "watched deadline passed")
                 return
+        if self.p_stall and me is not self.main and not me.kill:
+            # fault: the OS deschedules this thread for a while (stalled node)
+            c = self.dec.choose(1 + len(self.stall_ns), self.p_stall)
+            if c:
+                self.stalls += 1
+                me.state = "blocked"
+                me.deadline = self.clock.ns + self.stall_ns[c - 1]
+                me.wait_for = None
+                self.hist.add("stall", self.clock.ns, me.aid, me.deadline)
+                self._block(me)
+                if me.kill:
+                    return  # delivered at the next safe point
         self._wake_due()
         others = self._runnable_others(me)
         if not others:
@@ -310,7 +328,10 @@ class Scheduler:
             me.wait_for = None
             self.hist.add("lockwait", self.clock.ns, me.aid)
             self.lock_contentions += 1
+            t0 = self.clock.ns
             self._block(me)
+            if me is self.main:
+                self.main_preempted_ns += self.clock.ns - t0
             if self.overrun is not None and me is self.main:
                 raise SimOverrun(self.overrun)
         lock.locked_by = me.aid + 1
